@@ -22,8 +22,9 @@ struct Slice {
   ElementType* end() const { return storage_ + size_; }
   std::vector<uint8_t> reverse() const {
     std::vector<uint8_t> r;
-    r.reserve(size_);
-    for (size_t i = 0; i < size_; i++) r.push_back((uint8_t)storage_[size_ - 1 - i]);
+    r.reserve(size_);   // (capacity obligation once, then plain stores)
+    for (size_t i = 0; i < size_; i++) r.d_[i] = (uint8_t)storage_[size_ - 1 - i];
+    r.n_ = size_;
     return r;
   }
   ElementType* storage_;
